@@ -14,9 +14,9 @@ LEVEL = "exploration"
 RULE = (
     "compositions: ALL 2^(n-1) compositions of the stream length n<=10 (quick) / n<=13 (thorough) into consecutive "
     "chunks, for each data family (constant, 1/2/4/8-bit integers, constant+single outlier, offset+small spread, "
-    "float grid k/8 with |x|<=1e4) x modes {basic, full}; merges: ALL n-1 split points of a+b for n<=40 (quick) / "
+    "float grid k/8 with |x|<=1e4, level step, linear ramp) x modes {basic, full}; merges: ALL n-1 split points of a+b for n<=40 (quick) / "
     "n<=120 (thorough); random: Hypothesis streams n<=200, nchans 1-6, random compositions (incl. all-ones and "
-    "1+(n-1)), 2- and 3-way merges. Oracle: count/min/max exactly equal the whole-stream values; mean/var/std/skew/"
+    "1+(n-1)), 2- and 3-way merges; long_streams: streams of 7e4-1.4e5 (thorough 4e5) samples merged near the middle or chunked (counts whose products exceed int32). Oracle: count/min/max exactly equal the whole-stream values; mean/var/std/skew/"
     "kurtosis within 10*eps32*(sqrt(n)+4)*scale of two-pass float64 (scale: max|x| for mean; var+|mean|*std for var; "
     "(1+|mean|/std)*(1+|ref|) for skew/kurtosis); constant channel -> var=0 and skew=0 exactly; everything finite. "
     "Non-trivial = >=2 chunks or a merge on non-constant data; distinct by canonical case JSON."
@@ -28,7 +28,7 @@ ASSUMPTIONS = [
 ]
 
 EPS32 = float(np.finfo(np.float32).eps)
-FAMILIES = ["const", "b1", "b2", "b4", "b8", "outlier", "offset", "grid"]
+FAMILIES = ["const", "b1", "b2", "b4", "b8", "outlier", "offset", "grid", "step", "ramp"]
 
 
 def prime():
@@ -55,6 +55,15 @@ def make(kind, n, nch, seed):
         for c in range(nch):
             x[rng.integers(0, n), c] += rng.integers(1, 10000)
         return x
+    if kind == "step":
+        # non-stationary: the level jumps at a random sample (the two parts of a merge have different means)
+        x = rng.integers(-16, 17, (n, nch)) / 8
+        k = int(rng.integers(1, max(2, n)))
+        x[k:] += float(rng.choice([4, 16, -32, 100]))
+        return x.astype(np.float32)
+    if kind == "ramp":
+        x = rng.integers(-16, 17, (n, nch)) / 8 + np.round(np.linspace(0, float(rng.choice([8, 64, -200])), n) * 8)[:, None] / 8
+        return x.astype(np.float32)
     if kind == "offset":
         off = float(rng.choice([10, 100, 1000, 10000]))
         return (off + rng.integers(-8, 9, (n, nch)) / 8).astype(np.float32)
@@ -160,7 +169,7 @@ def check(case, ctx):
 
 def enum_compositions(tier):
     nmax = 10 if tier == "quick" else 13
-    fams = ["b1", "b8", "offset", "grid", "outlier", "const"] if tier == "quick" else FAMILIES
+    fams = ["b1", "b8", "offset", "grid", "outlier", "const", "step"] if tier == "quick" else FAMILIES
     for fam in fams:
         for mode in ("basic", "full"):
             for n in range(2, nmax + 1):
@@ -205,11 +214,31 @@ def strat_random(draw, tier):
     return case
 
 
+@st.composite
+def strat_long(draw, tier):
+    """Long streams (1e5 samples and more, as in real files): the per-accumulator counts are large enough for
+    products such as na*nb to leave the int32 range of the count field."""
+    n = draw(st.integers(70000, 140000 if tier == "quick" else 400000))
+    case = {"family": draw(st.sampled_from(["b8", "offset", "grid", "outlier", "step", "step", "ramp", "ramp"])), "n": n, "nch": draw(st.integers(1, 2)),
+            "mode": draw(st.sampled_from(["basic", "full"])), "seed": draw(st.integers(0, 2**31 - 1))}
+    kind = draw(st.sampled_from(["merge_mid", "merge_mid", "merge_any", "chunks"]))
+    if kind == "chunks":
+        case["cuts"] = sorted(draw(st.lists(st.integers(1, n - 1), min_size=1, max_size=5, unique=True)))
+    else:
+        lo, hi = (n // 3, 2 * n // 3) if kind == "merge_mid" else (1, n - 1)
+        case["splits"] = [draw(st.integers(lo, hi))]
+        case["cuts_in_parts"] = []
+        case["assoc"] = "left"
+    return case
+
+
 def subchecks(tier):
     return [
         SubCheck("compositions", check, enumerate=enum_compositions, exhaustive=True,
                  shards={"quick": 6, "thorough": 16}),
         SubCheck("merges", check, enumerate=enum_merges, exhaustive=True, shards={"quick": 2, "thorough": 4}),
+        SubCheck("long_streams", check, strategy=lambda t: strat_long(t),
+                 examples={"quick": 60, "thorough": 2000}, shards={"quick": 4, "thorough": 16}),
         SubCheck("random", check, strategy=lambda t: strat_random(t),
                  examples={"quick": 10000, "thorough": 400000}, shards={"quick": 6, "thorough": 16}),
     ]
